@@ -150,9 +150,15 @@ class RecStore(MemoryWorkflowStore):
         if self.lat:
             await asyncio.sleep(self.lat / U)
 
+    snap = False  # the releaser's read of the handler row answers with a row snapshot that takes `lat` to arrive
+
     async def query(self, q):
         await self._yield()
-        return await super().query(q)
+        r = await super().query(q)
+        if self.snap and self.lat and asyncio.current_task() in self.rec.releasing:
+            r = [h.model_copy() for h in r]
+            await asyncio.sleep(self.lat / U)
+        return r
 
     # `update` does not suspend: MemoryWorkflowStore.query hands out the stored handler objects, so
     # update_handler_status takes effect when it mutates the object -- the suspension point of a
@@ -266,10 +272,12 @@ class RecIdle(IdleReleaseDecorator):
         return t
 
     async def _release_idle_handler(self, run_id):
+        self.rec.releasing.add(asyncio.current_task())
         self.rec.on_release(begin=True)
         try:
             await super()._release_idle_handler(run_id)
         finally:
+            self.rec.releasing.discard(asyncio.current_task())
             self.rec.on_release(begin=False)
 
     def _abort_inner_run(self, run_id):
@@ -292,6 +300,8 @@ class Recorder:
         self.tasks = []          # model task list mirror: dicts {kind, task, pc, e}
         self.by_task = {}        # asyncio task -> index
         self.loops = []          # control loop tasks ever created (this process life)
+        self.releasing = set()   # tasks currently inside _release_idle_handler
+        self.release_hook = None
         self.dead = set()
         self.started = False
         self.chain = None
@@ -541,6 +551,11 @@ class Recorder:
         if begin and k is not None:
             self.tasks[k]["pc"] = "want"
             self.emit("Task %d" % k)
+        if begin and getattr(self, "release_hook", None):
+            h = self.handler()
+            if h is not None and h.idle_since is not None and \
+                    self.now() - units(h.idle_since.timestamp() - vloop.CLOCK.wall_offset - 1000.0) >= self.tau:
+                self.release_hook()      # (a releaser that is going to find the run idle for idle_timeout)
 
     def on_abort(self):
         if self.skip:
@@ -602,11 +617,12 @@ MONITOR_ONLY = {"retrynudge"}
 
 def gen_case(rng, kind=None):
     """ops: list of (time_units, op, payload), sorted by time."""
-    kinds = ["plain", "self", "retry", "retry2", "retrynudge", "waitretry", "waitfail", "wait", "waitresp", "crash", "boundary", "zero", "yield", "startup", "burst", "latency"]
+    kinds = ["plain", "self", "retry", "retry2", "retrynudge", "waitretry", "waitfail", "wait", "waitresp", "crash", "boundary", "zero", "yield", "startup", "burst", "latency", "relrace"]
     kind = kind or rng.choice(kinds)
     tau = rng.choice([8, 16, 32, 64, 96])
     y = 0
     lat = 0
+    at_release = None
     ops = []
     t = rng.choice([4, 8, 16])
     nid = itertools.count(1)
@@ -707,9 +723,19 @@ def gen_case(rng, kind=None):
         lat = rng.choice([1, 2, 3])
         ops.append((t, "send", plain_ev(dur=0.0)))
         # idle mark is written `lat`-ish after the step result; try arrival times around the due time
+        # (the work these events start takes a random time: it may still be running when the releaser's query answers)
         for dtt in sorted(set(rng.sample(range(0, 4 * lat + 3), 2))):
-            ops.append((t + tau + dtt, "send", plain_ev(dur=0.0)))
+            ops.append((t + tau + dtt, "send", plain_ev()))
         ops.append((t + 6 * tau + 80, "send", plain_ev(fin=True)))
+    elif kind == "relrace":
+        # a store with latency, and an event sent INSIDE the release: `delay` time units after the releaser of the first
+        # idle period has started (it then sits in its query of the handler row for `lat` units); the work the event
+        # starts outlasts that query
+        lat = rng.choice([1, 2, 3])
+        ops.append((t, "send", plain_ev(dur=0.0)))
+        at_release = dict(delay=rng.choice([0, lat, 2 * lat - 1]),
+                          payload=plain_ev(dur=rng.choice([0, 8, 24, tau + 8]) / U))
+        ops.append((t + 8 * tau + 160, "send", plain_ev(fin=True)))
     elif kind == "boundary":
         y = rng.choice([0, 0, 1, 2, 3])
         # a send exactly when the releaser of the first idle mark fires, and one just before / after
@@ -749,7 +775,11 @@ def gen_case(rng, kind=None):
             t += rng.choice([0, 1, tau - 1 if tau > 1 else 1, tau, tau + 1, 2 * tau])
     ops.sort(key=lambda o: (o[0], 0 if o[1] == "policy" else 1))
     horizon = max(o[0] for o in ops) + 6 * max(tau, 16) + 400
-    return dict(kind=kind, tau=tau, y=y, lat=lat, ops=ops, horizon=horizon)
+    case = dict(kind=kind, tau=tau, y=y, lat=lat, ops=ops, horizon=horizon)
+    if at_release:
+        case["at_release"] = at_release
+        case["snap"] = True
+    return case
 
 
 def run_case(case, reference=False):
@@ -766,12 +796,36 @@ def run_case(case, reference=False):
         store.rec = rec
         store.y = 0 if reference else case["y"]
         store.lat = 0 if reference else case.get("lat", 0)
+        store.snap = bool(case.get("snap")) and not reference
         chain = Chain(store, rec, tau_units / U)
         rec.chain, rec.wf = chain, chain.wf
         await chain.svc.start()
         await vloop.settle()
         await chain.svc.start_workflow(chain.wf, "h1", start_event=StartEvent())
         t0 = 0
+
+        async def do_send(payload):
+            try:
+                await rec.chain.svc.send_event("h1", Ext(**payload))
+                res["sent"].append((payload["i"], rec.now()))
+                rec.ev("driver-send", i=payload["i"], fin=payload["fin"])
+            except Exception as e:  # noqa: BLE001
+                res["rejected"].append((payload["i"], type(e).__name__))
+                rec.ev("driver-send-rejected", i=payload["i"], error=type(e).__name__)
+
+        if case.get("at_release") and not reference:
+            ar = case["at_release"]
+
+            def hook():
+                rec.release_hook = None
+
+                async def late():
+                    if ar["delay"]:
+                        await asyncio.sleep(ar["delay"] / U)
+                    await do_send(ar["payload"])
+                res["at_release_fired"] = rec.now()
+                asyncio.ensure_future(late())
+            rec.release_hook = hook
         for (t, op, payload) in case["ops"]:
             if t > t0:
                 await asyncio.sleep((t - t0) / U)
@@ -779,13 +833,7 @@ def run_case(case, reference=False):
             if op == "policy":
                 POLICY.delay = payload
             elif op == "send":
-                try:
-                    await rec.chain.svc.send_event("h1", Ext(**payload))
-                    res["sent"].append((payload["i"], rec.now()))
-                    rec.ev("driver-send", i=payload["i"], fin=payload["fin"])
-                except Exception as e:  # noqa: BLE001
-                    res["rejected"].append((payload["i"], type(e).__name__))
-                    rec.ev("driver-send-rejected", i=payload["i"], error=type(e).__name__)
+                await do_send(payload)
             elif op == "resp":
                 try:
                     await rec.chain.svc.send_event("h1", Resp(k=payload))
@@ -861,6 +909,7 @@ def analyze(case, rec, res, ref=None):
     count("releases", len(releases))
     count("crashes", len(crashes))
     count("yielding_store", 1 if case["y"] else 0)
+    count("sent_inside_a_release", 1 if res.get("at_release_fired") is not None else 0)
 
     # ---- C26: never two live loops; no step input executed twice at the same time
     for a, o in rec.trace:
@@ -959,6 +1008,11 @@ def analyze(case, rec, res, ref=None):
                   "event %d was accepted but its sender task died: %s" % (i, sender_err[i][:80]))
         elif i in sender_err:
             issue("C26", None, "event %d was accepted but its sender task died: %s" % (i, sender_err[i][:100]))
+            if not crashes and releases:
+                # reload on demand is transparent: whether the event arrives before, during or after a release, it is
+                # delivered (to the live run, or to the reloaded one)
+                issue("C36", None, "event %d, sent at t=%d around the release at t=%s, was not delivered to the live run nor "
+                      "to a reloaded one: its send failed with %s" % (i, e["t"], [r["t"] for r in releases], sender_err[i][:100]))
         elif any(i in r["mail"] for r in releases):
             pass    # reported above (release-drops-undelivered-event)
         elif crashes and i not in persisted:
@@ -1110,15 +1164,15 @@ def run_suite(ctx, n, props, with_reference=0.35):
     conform value, issues (restricted to `props`)."""
     import core
     rng = random.Random(ctx.seed * 7919 + 11)
-    kinds = ["plain", "self", "retry", "retry2", "retrynudge", "waitretry", "waitfail", "wait", "waitresp", "crash", "boundary", "zero", "yield", "startup", "burst", "latency"]
+    kinds = ["plain", "self", "retry", "retry2", "retrynudge", "waitretry", "waitfail", "wait", "waitresp", "crash", "boundary", "zero", "yield", "startup", "burst", "latency", "relrace"]
     out, exprs, total = [], [], {}
     corpus = corpus_cases()
     for k in range(len(corpus) + n):
         case = corpus[k] if k < len(corpus) else gen_case(rng, kinds[k % len(kinds)])
         rec, res = run_case(case)
         ref = None
-        if any(op == "crash" for (_, op, _p) in case["ops"]):
-            pass
+        if any(op == "crash" for (_, op, _p) in case["ops"]) or case.get("at_release"):
+            pass      # (no never-released counterpart: the event is sent when a release begins)
         elif k < len(corpus) or rng.random() < with_reference:
             ref = run_case(case, reference=True)
         issues, facts = analyze(case, rec, res, ref)
